@@ -73,7 +73,7 @@ def gen_base(rng, mix=None):
             objs.append({"k": "f", "p": rng.choice([1, 2]), "seed": rng.randrange(10 ** 6), "ovr": rng.random() < 0.3,
                          "coef": rng.choice([None, None, None, "1"])})
     return {"mask": mask, "data": data, "noise": noise, "psf": rng.choice(PSFS), "objs": objs,
-            "use_w_tilde": rng.random() < 0.6, "pos": rng.random() < 0.4, "eps": rng.choice([None, "1/1024", "1/4"])}
+            "use_w_tilde": rng.random() < 0.7, "pos": rng.random() < 0.4, "eps": rng.choice([None, "1/1024", "1/4"])}
 
 def gen_inputs(tier, rng):
     big = tier == "thorough"
@@ -83,7 +83,7 @@ def gen_inputs(tier, rng):
            "objs": [{"k": "m", "shape": [2, 2], "sub": 1, "coef": "1"}, {"k": "f", "p": 1, "seed": 1, "ovr": False, "coef": None}],
            "use_w_tilde": False, "pos": False, "eps": None, "slots": ["data_vector_mapper"], "pre_use_wt": None,
            "hist": [["QDv", "QRec"], ["QDv", "QRec"]]}
-    for i in range(900 if big else 64):
+    for i in range(420 if big else 64):
         b = gen_base(rng, MIXES[i % len(MIXES)] if i < 2 * len(MIXES) else None)
         b["op"] = "hist"
         r = rng.random()
@@ -99,7 +99,7 @@ def gen_inputs(tier, rng):
         if rng.random() < 0.5 and len(hist) > 1: hist[1] = list(hist[0])
         b["hist"] = hist
         yield b
-    for i in range(60 if big else 5):
+    for i in range(28 if big else 5):
         b = gen_base(rng, ["mfmf", "mf", "mm", "fm", "m", "mff", "fmf"][i % 7])
         b["op"] = "subsets"; b["k"] = 3 if big else 2
         b["use_w_tilde"] = bool(i % 2 == 0) if i < 4 else b["use_w_tilde"]
@@ -315,9 +315,8 @@ def run_hist(inp):
         outs.append(o)
         if qs == hist[0] and not all(same(a, b) for a, b in zip(o, fresh)):
             py_ok = False; why = "outputs differ from the inversion without preloads"
-    allowed = set()
-    if wt and has_f: allowed |= {"data_vector_mapper", "curvature_matrix_mapper_diag"}
-    if wt and nm > 1: allowed |= {"curvature_matrix_mapper_diag"}
+    # the only array an inversion may write in place: data_vector_mapper, by the w-tilde class with a function object
+    allowed = {"data_vector_mapper"} if (wt and has_f) else set()
     for s, v in vals.items():
         if fingerprint(v) != before[s] and s not in allowed:
             py_ok = False; why = f"preloaded {s} was modified in place"
@@ -336,9 +335,7 @@ def run_subsets(inp):
     names = list(vals)
     fresh_inv = aa.Inversion(dataset=ds, linear_obj_list=objs, settings=settings())
     fresh = [observe(fresh_inv, q) for q in STD]
-    allowed = set()
-    if wt and has_f: allowed |= {"data_vector_mapper", "curvature_matrix_mapper_diag"}
-    if wt and nm > 1: allowed |= {"curvature_matrix_mapper_diag"}
+    allowed = {"data_vector_mapper"} if (wt and has_f) else set()
     bad = None; n = 0
     for r in range(len(names) + 1):
         for sub in itertools.combinations(names, r):
